@@ -11,10 +11,16 @@
      * under exact arithmetic the sums add up as well (C06/C20 permutation invariance of the sum).
      * the reported minimum and maximum of a reward list are elements of the list that bound every element, so min <= max
        (order laws);
-    ..._partial: mean between min and max, and the numerical std, are checked by direct recomputation on the
-    implementation's public attributes. *)
+     * the mean of a non-empty reward list lies between its minimum and its maximum (ordered-field laws), every statistics record the
+       Simulator builds is therefore ordered, and the min / mean / max analyses of the default evaluator are ordered arm by arm:
+       the credited value of each test row grows with the statistic, and so do the sums (analyses_are_ordered);
+     * ON THE MODEL OF THE SIMULATOR (SimRun.v, compared with the real Simulator on every run - arm_to_stats_total/train/test and every
+       per-batch and total evaluation bit-exact, std up to 1e-12): the neighbourhood statistics recorded by the simulator classes are
+       ordered records at every point of every run (an invariant of training, prediction and online updates), hence
+       simulator_analyses_are_ordered for every finished record.
+    Not proved: nothing is claimed about the rounding of the numerical std (it is compared with the model's binary64 evaluation). *)
 From Coq Require Import List ZArith Bool Arith QArith Qcanon Permutation.
-From MW Require Import Num Assoc AssocFacts Rng Par CF CFInv CFClean CFForget CFSpec Matrix Lin Warm WarmInv Nbr NbrFacts NbrIndep LshFacts Clu Tree CellFacts Mab FacadeCF FacadeArms MoreFacts NumLaws CFAlg Sim Extra QcInst OrderFacts ExpIrrel LinInv FacadeLin LpInv NbrInv CluTreeInv FacadeAll ToyFacts C09All C10All LinForget LinSim MatrixFacts GaussJordan LinSpec NbrIndepGen CluIndep C17Lin WarmIdem C14More LshScale TreeLeaf Rename PopSpec CopyFacts StatFacts.
+From MW Require Import Num Assoc AssocFacts Rng Par CF CFInv CFClean CFForget CFSpec Matrix Lin Warm WarmInv Nbr NbrFacts NbrIndep LshFacts Clu Tree CellFacts Mab FacadeCF FacadeArms MoreFacts NumLaws CFAlg Sim Extra QcInst OrderFacts ExpIrrel LinInv FacadeLin LpInv NbrInv CluTreeInv FacadeAll ToyFacts C09All C10All LinForget LinSim MatrixFacts GaussJordan LinSpec NbrIndepGen CluIndep C17Lin WarmIdem C14More LshScale TreeLeaf Rename PopSpec CopyFacts StatFacts CluBatch LinWarm EvalOrder SimRun SimEval.
 Import ListNotations.
 
 Theorem C16_ordered_split_partition :
@@ -87,5 +93,78 @@ Theorem C16_min_le_max :
   forall rs : list R, rs <> [] -> leb N (st_min (get_stats N rs)) (st_max (get_stats N rs)) = true.
 Proof. exact @stats_min_le_max. Qed.
 Print Assumptions C16_min_le_max.
+
+Theorem C16_mean_between_min_and_max :
+  forall (R : Type) (N : Num R),
+  NumLaws N ->
+  forall l : list R,
+  l <> [] ->
+  let st := get_stats N l in
+  leb N (st_min st) (st_mean st) = true /\ leb N (st_mean st) (st_max st) = true.
+Proof. exact @mean_between_min_and_max. Qed.
+Print Assumptions C16_mean_between_min_and_max.
+
+Theorem C16_statistics_tables_hold_ordered_records :
+  forall (R A : Type) (N : Num R),
+  NumLaws N ->
+  forall (aeqb : A -> A -> bool) (arms ds : list A) (rs : list R),
+  Forall (fun kv : A * stats => ordered_stats N (snd kv)) (arm_stats N aeqb arms ds rs).
+Proof. exact @arm_stats_ordered. Qed.
+Print Assumptions C16_statistics_tables_hold_ordered_records.
+
+Theorem C16_analyses_are_ordered :
+  forall (R A : Type) (N : Num R),
+  NumLaws N ->
+  forall (aeqb : A -> A -> bool) (train : list (A * stats)) (nstats : list (option (list (A * stats))))
+    (preds decs : list A) (rews : list R) (a : A),
+  Forall (fun kv : A * stats => ordered_stats N (snd kv)) train ->
+  Forall (nstat_ordered N) nstats ->
+  leb N (nsum N (arm_credits N aeqb st_min train nstats preds decs rews a))
+    (nsum N (arm_credits N aeqb st_mean train nstats preds decs rews a)) = true /\
+  leb N (nsum N (arm_credits N aeqb st_mean train nstats preds decs rews a))
+    (nsum N (arm_credits N aeqb st_max train nstats preds decs rews a)) = true.
+Proof. exact @analyses_are_ordered. Qed.
+Print Assumptions C16_analyses_are_ordered.
+
+Theorem C16_simulator_training_keeps_ordered_neighbourhood_statistics :
+  forall (R A G : Type) (N : Num R) (aeqb : A -> A -> bool) (RG : RngOps R G) 
+    (quick : bool) (m : (@mab R A G)) (ds : list A) (rs : list R) (cx : option (list (list R))) 
+    (orc : (@oracle R A)), bk_ok N (fst (sim_train N aeqb RG quick m ds rs cx orc)).
+Proof. exact @sim_train_ok. Qed.
+Print Assumptions C16_simulator_training_keeps_ordered_neighbourhood_statistics.
+
+Theorem C16_simulator_prediction_keeps_ordered_neighbourhood_statistics :
+  forall (R A G : Type) (N : Num R),
+  NumLaws N ->
+  forall (aeqb : A -> A -> bool) (RG : RngOps R G) (b : (@sbandit R A G)) (dc : (@dcache R))
+    (cx : option (list (list R))) (n lo hi : nat) (op oe : (@oracle R A)),
+  bk_ok N b -> bk_ok N (fst (fst (sim_query N aeqb RG b dc cx n lo hi op oe))).
+Proof. exact @sim_query_ok. Qed.
+Print Assumptions C16_simulator_prediction_keeps_ordered_neighbourhood_statistics.
+
+Theorem C16_simulator_update_keeps_ordered_neighbourhood_statistics :
+  forall (R A G : Type) (N : Num R) (aeqb : A -> A -> bool) (RG : RngOps R G) 
+    (b : (@sbandit R A G)) (ds : list A) (rs : list R) (cx : option (list (list R))) 
+    (orc : (@oracle R A)), bk_ok N b -> bk_ok N (fst (sim_update N aeqb RG b ds rs cx orc)).
+Proof. exact @sim_update_ok. Qed.
+Print Assumptions C16_simulator_update_keeps_ordered_neighbourhood_statistics.
+
+Theorem C16_simulator_analyses_are_ordered :
+  forall (R A G : Type) (N : Num R),
+  NumLaws N ->
+  forall (aeqb : A -> A -> bool) (arms : list A) (train : list (A * stats)) 
+    (b : (@sbandit R A G)) (preds : list (option A)) (lo : nat) (decs : list A) (rews : list R)
+    (r1 r2 r3 : list (A * option stats)) (a : A) (s1 s2 s3 : stats),
+  bk_ok N b ->
+  Forall (fun kv : A * stats => ordered_stats N (snd kv)) train ->
+  sim_evaluate N aeqb arms st_min train b preds lo decs rews = Some r1 ->
+  sim_evaluate N aeqb arms st_mean train b preds lo decs rews = Some r2 ->
+  sim_evaluate N aeqb arms st_max train b preds lo decs rews = Some r3 ->
+  In (a, Some s1) r1 ->
+  In (a, Some s2) r2 ->
+  In (a, Some s3) r3 ->
+  NoDup arms -> leb N (st_sum s1) (st_sum s2) = true /\ leb N (st_sum s2) (st_sum s3) = true.
+Proof. exact @simulator_analyses_are_ordered. Qed.
+Print Assumptions C16_simulator_analyses_are_ordered.
 
 
